@@ -94,7 +94,7 @@ impl<'a> Prog<'a> {
         let ib = cands[r.below(cands.len() as u64) as usize];
         let a = &self.pool[ia]; let b = &self.pool[ib];
         let native_ntt = self.bgv;    // BGV ciphertexts live in NTT form, BFV in coefficient form
-        let op = r.below(16);
+        let op = if self.pool[ia].ct.size() == 3 && r.chance(1, 3) { 12 } else { r.below(16) };
         let cls = |name: &str, a: &Item, b: Option<&Item>| format!("{}-s{}{}-l{}-{}", name, a.ct.size(), b.map(|x| format!("x{}", x.ct.size())).unwrap_or_default(),
             s.ctx.get_context_data(a.ct.parms_id()).unwrap().chain_index(), if a.ct.is_ntt_form() { "ntt" } else { "coef" });
         let res = std::panic::catch_unwind(std::panic::AssertUnwindSafe(|| -> Option<(String, Item)> { match op {
@@ -217,6 +217,9 @@ pub fn run(out: &mut Out, thorough: bool, seed: u64, _extra: &[String]) {
             let opname = cls.split('-').next().unwrap_or("");
             if ["add", "sub", "negate", "multiply", "square"].contains(&opname) && s.n <= 16 {
                 out.case(&format!("ct_op {} 0 0 0 | {} | {} | {}", opname, s.ct_case(&opa.ct), s.ct_case(&opb.ct), s.ct_case(&item.ct)), &format!("op-{}", cls), || "ok".to_string());
+            }
+            if opname == "relinearize" && s.n <= 16 {
+                out.case(&format!("ks_op relin 0 {} | {} | {} | {}", fl(&key_qs(&s)), s.ct_case(&opa.ct), kskey_str(&s, prog.relin.key(2)), s.ct_case(&item.ct)), &format!("ks-{}", cls), || "ok".to_string());
             }
             // keep it only while it is still usable as an operand
             if item.pred >= 6.0 && prog.pool.len() < 10 { prog.pool.push(item); }
